@@ -40,8 +40,30 @@ Virt = Struct("Virt", NS, emb="basic.emb", fields=[
     V("alias_x", lambda f: f.x, writable=("alias", "x")),
 ])
 
+Kleene = Struct("Kleene", NS, emb="basic.emb", fields=[
+    F("a", 0, 1, UInt()),
+    F("b", 1, 1, UInt()),
+    F("c", 2, 2, UInt(), cond=lambda f: (f.a == 1) | (f.b == 1)),
+    F("d", 4, 1, UInt(), cond=lambda f: (f.a == 1) & (f.b == 1)),
+    V("either", lambda f: (f.a == 1) | (f.b == 1), boolean=True),
+    V("both", lambda f: (f.a > 5) & (f.b > 5), boolean=True),
+])
+
+Absent = Struct("Absent", NS, emb="basic.emb", fields=[
+    F("a", 0, 1, UInt()),
+    F("b", 1, 1, UInt(), cond=lambda f: f.a > 10),
+    F("c", 2, 1, UInt(), cond=lambda f: (f.a == 1) | (f.b == 1)),
+    F("d", 3, 1, UInt(), cond=lambda f: (f.a == 2) & (f.b == 1)),
+])
+
+Checked = Struct("Checked", NS, emb="basic.emb", fields=[
+    F("small", 0, 1, UInt(), requires=lambda this, f: this <= 9),
+    F("digits", 1, 1, Bcd()),
+    F("plain", 2, 2, UInt()),
+])
+
 Dyn.c20 = False       # array field: element-wise Equals needs loop invariants, not unrolling (not covered)
-ALL = {"Plain": Plain, "Cond": Cond, "Dyn": Dyn, "Virt": Virt}
+ALL = {"Plain": Plain, "Cond": Cond, "Dyn": Dyn, "Virt": Virt, "Kleene": Kleene, "Absent": Absent, "Checked": Checked}
 
 
 # ---------------------------------------------------------------------------
